@@ -53,6 +53,9 @@ pub fn k_f62_double_eq_normalize() {
     // equality is equality of canonical values, for every pair of representations
     vcheck!("C10.f62.eq.iff_same_value", (x == y) == (x.0 as u128 % MW == y.0 as u128 % MW));
     vcheck!("C10.f62.conjugate.identity", x.conjugate().0 == x.0);
+    // the canonical integer is below the modulus for every representation (zero stored as M included)
+    vcheck!("C10.f62.as_int.canonical", x.as_int() < M);
+    vcheck!("C10.f62.as_int.zero_representations", BaseElement(M).as_int() == 0 && BaseElement(0).as_int() == 0);
     vreach!("C10.f62.double.reach");
 }
 
